@@ -18,7 +18,7 @@
 From Coq Require Import List Arith Bool String ZArith Lia.
 From PV Require Import Base.Exn Base.Values Base.Ann Base.PyCall Model.CheckerCfg Model.Checker Model.PedanticCfg
   Model.Pedantic Model.PedanticEval Spec.Conforms Spec.PedanticSpec
-  Proofs.PedanticBase Proofs.PedanticC05 Proofs.PedanticWitness Gen.Pedantic.
+  Proofs.PedanticBase Proofs.PedanticC05 Proofs.PedanticChecker Proofs.PedanticWitness Gen.Pedantic.
 Import ListNotations.
 Close Scope Z_scope.
 Open Scope list_scope.
@@ -71,14 +71,30 @@ Theorem C05_stripped_but_unfilled_partial : forall pc check consumes f c bd,
   c05_positional f c = true ->
   t_star_args (f_text f) = false -> t_setter (f_text f) = f_setter f ->
   some_required_unfilled f c = true ->
-  snd (run pc check consumes f c bd) = [] /\ exists e, fst (run pc check consumes f c bd) = Raise e.
+  (forall a v tv e, fst (check a v tv) = Raise e -> is_pedantic e = true) ->        (* the checker raises PedanticExceptions only (C08) *)
+  (forall inst, instance_of f c = Ok inst -> clazz_probe f c inst = Ok tt) ->       (* K2: '@staticmethod' in the text of a module-level function *)
+  exists e, run pc check consumes f c bd = (Raise e, []) /\ is_pedantic e = true.
 Proof.
-  intros pc check consumes f c bd G H Hs Ht Hu. unfold c05_positional in H.
+  intros pc check consumes f c bd G H Hs Ht Hu Hped Hprobe. unfold c05_positional in H.
   repeat (apply andb_true_iff in H; destruct H as [H ?]).
-  apply unfilled_never_runs; [assumption| |assumption].
-  rewrite (should_have_kwargs_exempt pc G f Hs Ht). assumption.
+  apply unfilled_never_runs_ped; try assumption.
+  - rewrite (should_have_kwargs_exempt pc G f Hs Ht). assumption.
+  - intros _. unfold wargs. destruct (c_args c); [discriminate|]. destruct (c_recv c); discriminate.
 Qed.
 Print Assumptions C05_stripped_but_unfilled_partial.
+
+(* closed: with the checker model over the regenerated tables (which raises PedanticExceptions only on its whole domain) *)
+Theorem C05_stripped_but_unfilled_closed_partial : forall ctx f c bd,
+  c05_positional f c = true ->
+  t_star_args (f_text f) = false -> t_setter (f_text f) = f_setter f ->
+  some_required_unfilled f c = true ->
+  (forall inst, instance_of f c = Ok inst -> clazz_probe f c inst = Ok tt) ->
+  exists e, run1 ctx f c bd = (Raise e, []) /\ is_pedantic e = true.
+Proof.
+  intros ctx f c bd H Hs Ht Hu Hp. unfold run1.
+  exact (C05_stripped_but_unfilled_partial _ _ _ f c bd C05_cfg_good H Hs Ht Hu (checker1_pedantic_only ctx) Hp).
+Qed.
+Print Assumptions C05_stripped_but_unfilled_closed_partial.
 
 (* ---------------- the exemptions ---------------- *)
 (* should_have_kwargs is false exactly for property setters, for dunder names outside the documented
